@@ -982,3 +982,24 @@ def symfloat_text(x=0.0):
             return SymNum(text_to_number(x, 'float'), 'f')
         raise ValueError("could not convert string to float: <symbolic>")
     return float(x)
+
+
+class _ShadowMeta(type):
+    """metaclass of the int/float stand-ins: isinstance() behaves like the builtin type, calling converts"""
+
+    def __instancecheck__(cls, x):
+        return isinstance(x, cls.__mro__[1])
+
+    def __subclasscheck__(cls, sub):
+        return issubclass(sub, cls.__mro__[1])
+
+    def __call__(cls, *a, **k):
+        return cls._convert(*a, **k)
+
+
+class IntShadow(int, metaclass=_ShadowMeta):
+    _convert = staticmethod(symint_text)
+
+
+class FloatShadow(float, metaclass=_ShadowMeta):
+    _convert = staticmethod(symfloat_text)
